@@ -509,5 +509,6 @@ func genC02(g *Gen) {
 	// (g) histories through the real Send/Receive, source and destination listed by the real
 	// walks (kind 0205)
 	c02HistoryDirected(g)
+	c02HistoryFiltered(g)
 	c02HistoryRandom(g, g.Vol(150, 3000))
 }
